@@ -162,3 +162,23 @@ func VerifC02ExitAndChar() {
 		verifAssert(err == nil, "%c of an arbitrary number failed")
 	}
 }
+
+// a call pushes nulls for every local that was not passed: any number of them must fit (stack growth)
+func VerifC02StackGrowth() {
+	nparams := []int{2, 99, 100, 101, 130, 250}[verifIntRange(0, 5)]
+	nargs := verifIntRange(0, 1)
+	params := ""
+	for i := 0; i < nparams; i++ {
+		if i > 0 {
+			params += ", "
+		}
+		params += "p" + verifItoa(i)
+	}
+	depth := verifIntRange(1, 2)
+	src := "function f(" + params + ") { p0++; if (p0 < " + verifItoa(depth) + ") return f(p0); return p" + verifItoa(nparams-1) + " \"|\" p0 }\nBEGIN { r = f(" + []string{"", "0"}[nargs] + ") }"
+	prog := verifParse(src)
+	p := newInterp(prog)
+	err := p.execute(prog.Compiled.Begin)
+	verifAssert(err == nil && p.sp == 0, "a call with many unpassed locals failed or left the stack unbalanced")
+	verifAssert(verifGlobal(p, "r").s == "|"+verifItoa(depth), "locals that were not passed are not null, or the result was lost")
+}
